@@ -204,3 +204,16 @@ pub fn craft_secure_src(
     out.extend_from_slice(wb.as_slice());
     out
 }
+
+/// An unsecured (session 0) message as a peer without a session would send it.
+pub fn craft_plain(src_node: u64, ctr: u32, exch_flags: u8, opcode: u8, exch_id: u16, proto_id: u16, payload: &[u8]) -> Vec<u8> {
+    let mut v = vec![0x04u8, 0, 0, 0];
+    v.extend_from_slice(&ctr.to_le_bytes());
+    v.extend_from_slice(&src_node.to_le_bytes());
+    v.push(exch_flags);
+    v.push(opcode);
+    v.extend_from_slice(&exch_id.to_le_bytes());
+    v.extend_from_slice(&proto_id.to_le_bytes());
+    v.extend_from_slice(payload);
+    v
+}
